@@ -137,6 +137,38 @@ func genHist(c *Ctx, which string) {
 		r := hb.result()
 		c.emit(opName, []string{hb.hist()}, r, true, "directed-"+histClass(r))
 	}
+	// deep chains of template calls (t0 -> t1 -> … -> leaf): executing a member in the middle first must not change what
+	// the head gives. The model's analysis is cubic in the chain length, so the long chain runs in the thorough tier only.
+	if which == "C06" || which == "C05" || which == "" {
+		lens := []int{40, 260}
+		if c.thorough {
+			lens = []int{40, 260, 1100}
+		}
+		for _, n := range lens {
+			for _, leaf := range []string{"<b title=\"{{.X}}\">{{.Y}}</b>", "<a href=\"{{.X}}", "<b>{{.X}}</b>"} {
+				var b strings.Builder
+				b.WriteString("{{define \"leaf\"}}" + leaf + "{{end}}")
+				for i := 0; i < n; i++ {
+					next := fmt.Sprintf("t%d", i+1)
+					if i == n-1 {
+						next = "leaf"
+					}
+					fmt.Fprintf(&b, "{{define \"t%d\"}}<i id=\"n%d\">{{.X}}</i>{{template %q .}}{{end}}", i, i, next)
+				}
+				hb := newHistBuilder()
+				hb.add(Step{Op: "new", H: 0, Name: "root"})
+				if hb.add(Step{Op: "parse", H: 0, Text: b.String()}) == "" {
+					continue
+				}
+				data := &Val{Kind: "m", Keys: []string{"X", "Y"}, M: map[string]*Val{"X": {Kind: "s", S: "a\"b<"}, "Y": {Kind: "s", S: "<x&y>"}}}
+				hb.add(Step{Op: "exect", H: 0, Name: fmt.Sprintf("t%d", n/2), Data: data})
+				hb.add(Step{Op: "exect", H: 0, Name: "t0", Data: data})
+				hb.add(Step{Op: "exect", H: 0, Name: fmt.Sprintf("t%d", n-1), Data: data})
+				r := hb.result()
+				c.emit(opName, []string{hb.hist()}, r, true, fmt.Sprintf("chain-%d-", n)+histClass(r))
+			}
+		}
+	}
 	genHistRandom(c, which)
 }
 
